@@ -36,10 +36,11 @@ def h2f(s):
 class Driver:
     """Line protocol to the compiled Lean model driver."""
 
-    def __init__(self):
-        if not os.path.exists(DRIVER):
-            raise RuntimeError("driver not built: " + DRIVER)
-        self.p = subprocess.Popen([DRIVER], stdin=subprocess.PIPE, stdout=subprocess.PIPE, text=True, bufsize=1 << 20)
+    def __init__(self, binary="gsdriver"):
+        path = os.path.join(LEAN_DIR, ".lake", "build", "bin", binary)
+        if not os.path.exists(path):
+            raise RuntimeError("driver not built: " + path)
+        self.p = subprocess.Popen([path], stdin=subprocess.PIPE, stdout=subprocess.PIPE, text=True, bufsize=1 << 20)
         self.n = 0
 
     def ask(self, line):
